@@ -855,6 +855,199 @@ def rule_exit_clean(rep: Report, stl: Stl, prop: str, files: List[str], floor: i
         raise AnalysisError(f'{rule}: {n_inst} macros with a documented zero-exit and in-place sign handling (at least {floor} confirmed by hand: hex.idiv)')
 
 
+_DOC_NOOP = re.compile(r'^if\s+([A-Za-z_]\w*)\s*(?:\[[^\]]*\])?\s*==\s*0\s*:?\s*(?:goto end\b.*do nothing|do nothing|goto end\s*\(do nothing\))', re.I)
+
+
+def rule_zero_noop(rep: Report, stl: Stl, prop: str, files: List[str], floor: int, w: int = 64) -> None:
+    rule = f'{prop}.ZERO-NOOP'
+    rep.rule(rule, 'a macro whose contract says `if p==0: goto end (do nothing)` tests p towards its own end before the first statement that '
+             'changes any of its parameters (per the callee contracts): a wrapper that leaves the test to an inner macro still runs its own '
+             'before / after work (sign handling) around it', floor)
+    n_inst = 0
+    for key, m in sorted(stl.macros.items()):
+        if m.file not in files:
+            continue
+        ops_ = [mm.group(1) for ln in m.doc for mm in [_DOC_NOOP.match(ln[2:].strip())] if mm and mm.group(1) in m.params]
+        if not ops_:
+            continue
+        env: Dict[str, Any] = dict(base_env(w))
+        for q in m.params:
+            env[q] = {q: 1}
+        cells = scratch_cells(m)
+        entry, succ = macro_cfg(m, set(cells.values()))
+        if entry is None:
+            continue
+        end_labels = {st[1].split('.')[-1] for i, st in enumerate(m.body) if st[0] == 'label' and all(x[0] == 'label' or j in cells.values() or (x[0] == 'call' and (x[1], len(x[2])) in SCRATCH_DECLS)
+                                                                                                      for j, x in enumerate(m.body[i + 1:], i + 1))}
+        for operand in ops_:
+            n_inst += 1
+            bad: List[str] = []
+            seen: Set[int] = set()
+            work = [entry]
+            tested_first = False
+            while work:
+                i_ = work.pop()
+                if i_ == -1 or i_ in seen:
+                    continue
+                seen.add(i_)
+                op = m.body[i_]
+                is_test = False
+                if op[0] in ('call', 'rep'):
+                    name, args = (op[1], op[2]) if op[0] == 'call' else (op[3], op[4])
+                    cal = stl.macros.get((name, len(args)))
+                    if cal is not None:
+                        for po, pt in doc_zero_exits(cal):
+                            try:
+                                a_o = ev(args[cal.params.index(po)], env)
+                                a_t = ev(args[cal.params.index(pt)], env)
+                            except (NeedConcrete, OpaqueValue, AnalysisError):
+                                continue
+                            so = [k for k in a_o if k != '' and a_o[k]]
+                            st_ = [k for k in a_t if k != '' and a_t[k]]
+                            if so == [operand] and len(st_) == 1 and st_[0].split('.')[-1] in end_labels:
+                                is_test = True
+                        if not is_test:
+                            cl = _effect_on(stl, op, set(m.params), env)
+                            changed = sorted(p_ for p_, c_ in cl.items() if c_ in ('update', 'assign'))
+                            if changed:
+                                bad.append(f'line {op[-1]} `{_stmt_name(op)}` changes {changed} and is reachable from the entry before any `{operand} == 0` test towards the end')
+                                continue
+                if is_test:
+                    tested_first = True
+                    continue                      # beyond the test the operand is known non-zero (or the macro has ended)
+                work.extend(succ.get(i_, []))
+            rep.check(not bad, rule, f'{key[0]}/{key[1]}:{operand}', bad[0] if bad else 'the zero test comes before every change', f'{m.file}:{m.line} {m.name}',
+                      expected=f'`if0 {operand}, end` first (the contract: do nothing when {operand} is 0)')
+    if n_inst < floor:
+        raise AnalysisError(f'{rule}: {n_inst} macros with a documented do-nothing case found (at least {floor} confirmed by hand)')
+
+
+_SIBLING_WORDS = (('add', 'sub'), ('inc', 'dec'), ('shl', 'shr'), ('push', 'pop'), ('read', 'write'))
+
+
+def rule_sibling_guards(rep: Report, stl: Stl, prop: str, files: List[str], floor: int) -> None:
+    rule = f'{prop}.SIBLING-GUARDS'
+    rep.rule(rule, 'mirror-image macros (add / sub, inc / dec, shl / shr, push / pop, read / write spelled alike, same arity) take the same '
+             'compile-time guards on their constant parameters: a `rep(<condition on the parameters>, _)` that switches the body off for a '
+             'degenerate constant (0) in one of the two is present, with the same condition, in the other - where one is a no-op for that '
+             'constant the other must not fail to assemble', floor)
+
+    def show(e: Any) -> str:
+        if isinstance(e, int):
+            return str(e)
+        if e[0] == 'id':
+            return e[1].split('.')[-1]
+        if len(e) == 2:
+            return f'{e[0]}({show(e[1])})'
+        if len(e) == 3:
+            return f'({show(e[1])}{e[0]}{show(e[2])})'
+        return str(e)
+
+    def guards(m: Macro) -> List[str]:
+        return sorted(show(op[1]) for op in m.body if op[0] == 'rep' and not isinstance(op[1], int) and op[2] == '_')
+    n = 0
+    for (name, ar), m in sorted(stl.macros.items()):
+        if m.file not in files:
+            continue
+        last = name.split('.')[-1]
+        for a, b in _SIBLING_WORDS:
+            if a not in last:
+                continue
+            sib = '.'.join(name.split('.')[:-1] + [last.replace(a, b)])
+            m2 = stl.macros.get((sib, ar))
+            if m2 is None or m2.params != m.params:
+                continue
+            n += 1
+            g1, g2 = guards(m), guards(m2)
+            if g1 == g2:
+                rep.ok(rule, f'{name}/{ar} ~ {sib}/{ar}', f'guards {g1} / {g2}', f'{m2.file}:{m2.line} {m2.name}', nontrivial=bool(g1 or g2))
+            else:
+                rep.fail(rule, f'{name}/{ar} ~ {sib}/{ar}', f'guards {g1} / {g2}: one of the two is a no-op for the degenerate constant, the other evaluates its '
+                         f'body with it (hex.sub_constant n, dst, 0: `#(0)-1` = -1 as a shift amount - does not assemble)', f'{m2.file}:{m2.line} {m2.name}',
+                         expected='the same compile-time guards in both')
+    if n < floor:
+        raise AnalysisError(f'{rule}: {n} mirror-image pairs found (at least {floor} confirmed by hand)')
+
+
+_DOC_MOD = re.compile(r'^([A-Za-z_]\w*)\s*(?:\[[^\]]*\])?\s*=\s*[A-Za-z_]\w*\s*(?:\[[^\]]*\])?\s*%\s*[A-Za-z_]\w*')
+
+
+def rule_rem_fix(rep: Report, stl: Stl, prop: str, files: List[str], floor: int, w: int = 64) -> None:
+    rule = f'{prop}.REM-FIX'
+    rep.rule(rule, 'a macro whose contract defines a remainder `r = a % b` and that corrects r in place after computing it (adds or subtracts '
+             'another parameter to move the remainder to the documented sign) applies the correction only behind a test that r is not zero: '
+             'an exact division has remainder 0 in every sign convention - a correction chosen from the operand signs alone turns it into +-b '
+             'and the quotient off by one', floor)
+    n_inst = 0
+    for key, m in sorted(stl.macros.items()):
+        if m.file not in files:
+            continue
+        rems = [mm.group(1) for ln in m.doc for mm in [_DOC_MOD.match(ln[2:].strip())] if mm and mm.group(1) in m.params]
+        if not rems:
+            continue
+        env: Dict[str, Any] = dict(base_env(w))
+        for q in m.params:
+            env[q] = {q: 1}
+        cells = scratch_cells(m)
+        entry, succ = macro_cfg(m, set(cells.values()))
+        if entry is None:
+            continue
+        for r_ in rems:
+            info: Dict[int, str] = {}
+            for idx, op in enumerate(m.body):
+                if op[0] not in ('call', 'rep'):
+                    continue
+                name, args = (op[1], op[2]) if op[0] == 'call' else (op[3], op[4])
+                cal = stl.macros.get((name, len(args)))
+                if cal is None:
+                    continue
+                cls = _effect_on(stl, op, {r_}, env).get(r_)
+                sign_only = any(re.match(r'^\s*(\w+)(\[[^\]]*\])?\s*=\s*-\s*\1\b', ln[2:].strip()) for ln in cal.doc)
+                others = set()
+                for a in args:
+                    try:
+                        lf = ev(a, env)
+                    except (NeedConcrete, OpaqueValue, AnalysisError):
+                        continue
+                    others |= {k for k in lf if k != '' and lf[k] and k in m.params and k != r_}
+                if cls == 'assign' or (cls is None and r_ in {k for a in args for k in _expr_ids(a, set())} and name.split('.')[-1].startswith('div')):
+                    info[idx] = 'assign'
+                elif cls == 'update' and not sign_only and others:
+                    info[idx] = 'correct'
+                for po, pt in doc_zero_exits(cal):
+                    try:
+                        a_o = ev(args[cal.params.index(po)], env)
+                    except (NeedConcrete, OpaqueValue, AnalysisError):
+                        continue
+                    if [k for k in a_o if k != '' and a_o[k]] == [r_]:
+                        info[idx] = 'test'
+            corrections = [i for i, c in info.items() if c == 'correct']
+            if not corrections:
+                continue
+            n_inst += 1
+            bad: List[str] = []
+            seen: Set[Tuple[int, bool]] = set()
+            work: List[Tuple[int, bool]] = [(entry, False)]
+            while work:
+                i_, tested = work.pop()
+                if i_ == -1 or (i_, tested) in seen:
+                    continue
+                seen.add((i_, tested))
+                c = info.get(i_)
+                if c == 'assign':
+                    tested = False
+                elif c == 'test':
+                    tested = True
+                elif c == 'correct' and not tested:
+                    bad.append(f'line {m.body[i_][-1]} `{_stmt_name(m.body[i_])}` corrects {r_} and is reachable without a `{r_} == 0` test since {r_} was computed')
+                    continue
+                work.extend((j_, tested) for j_ in succ.get(i_, []))
+            rep.check(not bad, rule, f'{key[0]}/{key[1]}:{r_}', bad[0] if bad else f'{len(corrections)} in-place corrections of the remainder, all behind a zero test',
+                      f'{m.file}:{m.line} {m.name}', expected=f'`if0 {r_}, end` before the sign-dependent correction')
+    if n_inst < floor:
+        raise AnalysisError(f'{rule}: {n_inst} macros that correct a documented remainder in place (at least {floor} confirmed by hand: hex.idiv)')
+
+
 # ---------------------------------------------------------------- FJ.INPUT-PRESERVED (a cast does not change what it casts)
 
 def rule_input_preserved(rep: Report, stl: Stl, prop: str, files: List[str], floor: int, w: int = 64) -> None:
